@@ -47,7 +47,7 @@ ASSUMPTIONS = [
   'instruction; accelerator CSRs (xcelregXX) and illegal words are outside the model and the generator',
   'commit_inst: ProcFL and ProcRTL commit every instruction; ProcCL does not commit `nop` (it never reaches its W stage), '
   'so its count is compared with (instruction count - executed nops)',
-]
+] + c20_pipe.ASSUMPTIONS
 RULE = ('structured random programs (straight-line blocks, forward bne over blocks, down-counter loops nested <= 2, dense RAW '
         'reuse of the last 3 destinations, load-use, store->load same/neighbouring word, pointers through memory, far-base '
         'addressing with negative offsets, csrr/csrw in loops, register-file dump epilogue) + far-branch family (taken bne with '
